@@ -7,18 +7,22 @@ seeds, _, benign = out.partition("\n| property-preserving change")
 benign = "| property-preserving change" + benign if benign else ""
 intro = '''Independent sub-agents were each given **only the text of one property** and a scratch worktree
 of /repo (nothing from /verif) and asked for realistic changes that break the property, still
-compile, keep all 259 repository tests green and need something specific to manifest; two rounds
-(2 and 3 variants per property). I confirmed every delivered change myself in a scratch
+compile, keep all 259 repository tests green and need something specific to manifest; four rounds
+(2, 3, 2 and 2 variants per property; the last round for 8 properties). I confirmed every delivered change myself in a scratch
 worktree (`tools/confirm_seeds.sh`: the patch applies, the suite passes 259/0, the author's
 demonstration behaves differently with and without the change); changes that conflicted with my
 repairs were rebased by hand (noted in their meta.json). Confirmed seeds live in `seeded/<id>/`
 (patch.diff, demo/, meta.json). `tools/eval_seeds.py` applies a seed to /repo, runs quick checks
 (evidence and replays redirected), undoes it straight afterwards, and records what each check
-reported. "r2" marks the second round. Where the *first version* of a check missed a seed, that
+reported. "r2".."r4" mark the later rounds. Where the *first version* of a check missed a seed, that
 was measured with the then-committed harness before the check was strengthened (last column);
-the strengthening itself is described in the commit messages of /verif and is always a
-generalisation of the universe (new alphabet letters, shapes, bounds), never a special case for the
-seed's input.
+the strengthenings are listed in 12.8 and are always a generalisation of the universe (new alphabet
+letters, shapes, bounds), never a special case for the seed's input. The column "own check" says
+whether the check of the property the seed was written against reports it (a seed written against
+one property often breaks a neighbouring one more directly: a parser defect written against C01 is
+C07's to report first). Records of checks other than the own one may stem from an earlier harness
+version (`harness_commit` in `seeded/<id>/meta.json`); universes only grew since, except C05, which
+stopped reporting compiler defects and was re-run.
 
 Attribution: a check alarms when a program of *its* universe misbehaves, so a defect in a
 construct that many universes use (print, let, calls, the loader) is reported by several checks;
